@@ -28,6 +28,13 @@ class ProbeError(Exception):
     pass
 
 
+# a host callback may fail with ANY exception class: the probe's failure is raised as a ProbeError that is also a TypeError, KeyError, IndexError, ... -
+# classes the library itself catches somewhere (lookup conversion, retry and fallback paths) - and must still surface once, unchanged
+PROBE_ERRORS = [ProbeError] + [type('Probe' + b.__name__, (ProbeError, b), {}) for b in
+                               (TypeError, KeyError, IndexError, ValueError, LookupError, AttributeError, ZeroDivisionError, ArithmeticError, RuntimeError,
+                                StopIteration, OverflowError, AssertionError, NotImplementedError, RecursionError, MemoryError, OSError, UnicodeError)]
+
+
 class OpError(Exception):
     """the operation itself fails after its operands were evaluated (R5 side)"""
 
@@ -365,10 +372,11 @@ def setup(ctx):
         i = int(i)
         ctx.log.append(i)
         if ctx.raise_at == i:
-            raise ProbeError(i)
+            raise ctx.raise_cls(i)
         return ctx.plan[i]
     ctx.t = t
     ctx.raise_at = None
+    ctx.raise_cls = ProbeError
     ctx.plan = []
     # values that happen to be syntax-tree objects of the package (a host may keep parsed programs in its data): they are VALUES here
     from smartquery.ast_ops import LambdaOp, NameOp
@@ -475,6 +483,9 @@ def run_case(case, ctx):
                     exp = ('op-error', str(e))
                 ctx.log[:] = []
                 ctx.plan, ctx.raise_at = plan, raise_at
+                ctx.raise_cls = PROBE_ERRORS[(sub + (raise_at or 0) + len(bits)) % len(PROBE_ERRORS)]
+                if raise_at is not None:
+                    ctx.cov('classes_of_the_raising_probe', ctx.raise_cls.__name__)
                 try:
                     got = ('value', (ctx.PC if cached else ctx.P).eval(src, host(ctx, mode), None, 10 ** 4))
                 except ProbeError:
